@@ -264,6 +264,11 @@ proof fn lemma_regs<P: AsRef<[u8]>, V>(n: NfaBuilder<u8, V>, items: Seq<(P, V)>)
     }
 }
 //@include ghost_count.rs
+// leftmost kinds: what the leftmost iterator is proved to report is a function of the NFA alone (not of the array layout, hence not of
+// num_free_blocks: C11; the NFA stage has no access to that setting, `//@forbid num_free_blocks` on build_sparse_nfa)
+spec fn lm_searches_ok<V>(st: Seq<State>, outs: Seq<Output<V>>, n: NfaBuilder<u8, V>) -> bool {
+    forall|hay: Seq<u8>, pos: nat| #[trigger] lm_stream(st, outs, hay, pos) == nfa_lm_stream(n, hay, pos)
+}
 #[verifier::opaque]
 spec fn bwv_post<P: AsRef<[u8]>, V>(st: Seq<State>, outs: Seq<Output<V>>, num_states: u32, items: Seq<(P, V)>, kind: MatchKind) -> bool {
     &&& pats_valid(items)
@@ -276,6 +281,7 @@ spec fn bwv_post<P: AsRef<[u8]>, V>(st: Seq<State>, outs: Seq<Output<V>>, num_st
             && (!(kind is LeftmostFirst) ==> regs(n, item_pats(items), item_vals(items)))
             && values_are(n, items, items.len() as int)
             && (kind is Standard ==> searches_ok(st, outs, n))
+            && (!(kind is Standard) ==> lm_searches_ok(st, outs, n))
 }
 proof fn lemma_bwv_post<P: AsRef<[u8]>, V>(nfa: NfaBuilder<u8, V>, st: Seq<State>, num_states: u32, items: Seq<(P, V)>, kind: MatchKind)
     requires
@@ -294,6 +300,11 @@ proof fn lemma_bwv_post<P: AsRef<[u8]>, V>(nfa: NfaBuilder<u8, V>, st: Seq<State
     lemma_built_outs_ok(st, nfa, idmap);
     lemma_slots_at_least_states(st, nfa, idmap);
     if kind is Standard { lemma_searches_ok(nfa, st, idmap); }
+    else {
+        assert forall|hay: Seq<u8>, pos: nat| #[trigger] lm_stream(st, nfa.outputs@, hay, pos) == nfa_lm_stream(nfa, hay, pos) by {
+            theorem_lm_sim(nfa, st, idmap, hay, pos);
+        }
+    }
     lemma_state_count(nfa);
     if !(kind is LeftmostFirst) { lemma_regs(nfa, items); }
     assert(nfa.states@.len() == num_states + 1 && st.len() >= nfa.states@.len());
